@@ -1,6 +1,7 @@
 import OSProofs.Props.C20
 import OSProofs.Props.C20b
 import OSProofs.Props.C20c
+import OSProofs.Props.Gamma
 #print axioms OS.C20_rating_given
 #print axioms OS.C20_rating_defaults
 #print axioms OS.C20_create_rating
@@ -34,3 +35,9 @@ import OSProofs.Props.C20c
 #print axioms OS.C20_league_rebuild
 #print axioms OS.C20_league_rebuild_prefix
 #print axioms OS.C20_league_rebuild_fresh
+#print axioms OS.C20_reid_any_gamma
+#print axioms OS.C20_rate_reid_tagged
+#print axioms OS.C20_rate_values_of_eq_tagged
+#print axioms OS.C20_rate_rebuilt_tagged
+#print axioms OS.C20_rate_setIds_tagged
+#print axioms OS.Gamma_fn_idInv
